@@ -312,6 +312,15 @@ func (k Keeper) RollbackMeta(ctx sdk.Context, dataId string) {
 	metadata.OrderId = metadata.Orders[len(metadata.Orders)-1]
 	k.ResetMetaDuration(ctx, &metadata)
 
+	if metadata.Duration == 0 {
+		// the update kept the model alive past the end of its committed versions: no stored
+		// shard is left to go back to, so the model ends here instead of staying for good
+		k.RemoveMetadata(ctx, dataId)
+		key := fmt.Sprintf("%s-%s-%s", metadata.Owner, metadata.Alias, metadata.GroupId)
+		k.RemoveModel(ctx, key)
+		return
+	}
+
 	k.SetMetadata(ctx, metadata)
 	return
 }
